@@ -98,7 +98,7 @@ func (e *Encoder) callCommon(instr ssa.Instruction, cm *ssa.CallCommon, res ssa.
 	if bi, ok := cm.Value.(*ssa.Builtin); ok {
 		// (site assertions on the few builtins with an effect worth pinning: close, delete, panic)
 		switch bi.Name() {
-		case "close", "delete", "panic":
+		case "close", "delete", "panic", "append":
 			if e.fc != nil && len(e.fc.Sites) > 0 {
 				bsn := e.siteName("call", bi.Name())
 				e.siteAsserts("call "+bi.Name(), bsn, st, pc, args)
